@@ -615,8 +615,9 @@ class Checker:
             if rec["ok"]:
                 rep.nontrivial(rec["srcB"])
                 self.nsample[family] = self.nsample.get(family, 0) + 1
-                if self.nsample[family] % 97 == 3 and self.nsample[family] < 300 and len(rec["srcB"]) < 200:
-                    rep.sample({"source": src, "printed": src_text(rec["printed"]), "tokens": v.get("ntok"), "family": family}, limit=12)
+                if self.nsample[family] % 97 == 3 and self.nsample.get(family + "#", 0) < 2 and 6 <= len(rec["srcB"]) < 200:
+                    self.nsample[family + "#"] = self.nsample.get(family + "#", 0) + 1
+                    rep.sample({"source": src, "printed": src_text(rec["printed"]), "tokens": v.get("ntok"), "family": family}, limit=16)
 
     def classify_vars(self, rec, v, case, src):
         """re-spacings: the same token sequence (decided by Lexer.tla) must give the same outcome and AST"""
@@ -807,19 +808,19 @@ def run(tier, seed, replay):
 
         # ---- 2. every token sequence over the alphabets of C09Universe, blank-separated and glued
         seqlen = 3 if quick else 4
-        piecelen = 4 if quick else 5
+        piecelen = {"strings": 4, "comments": 4, "lexemes": 4} if quick else {"strings": 5, "comments": 5, "lexemes": 4}
         cases = []
         for a in alphabets:
             alpha = [bytes(t) for t in a["alphabet"]]
             piece = a["profile"] in pieces
-            for n in range(1, (piecelen if piece else seqlen) + 1):
+            for n in range(1, (piecelen[a["profile"]] if piece else seqlen) + 1):
                 for ts in itertools.product(alpha, repeat=n):
                     if not piece:
                         cases.append({"srcB": list(b" ".join(ts)), "tag": "tokseq"})
                     if n > 1 or piece:
                         cases.append({"srcB": list(b"".join(ts)), "tag": "tokseq"})
         rep.cov["token_sequences"] = ("every sequence of <= %d tokens over %d token alphabets (16-18 tokens), blank-separated and glued; every glued sequence of "
-                                      "<= %d pieces over the 3 alphabets of string / comment / lexeme pieces: %d texts" % (seqlen, len(tokprofiles), piecelen, len(cases)))
+                                      "<= %s pieces over the 3 alphabets of token pieces: %d texts" % (seqlen, len(tokprofiles), "/".join("%d (%s)" % (piecelen[k], k) for k in sorted(piecelen)), len(cases)))
         ck.run_family("tokseq", cases)
 
         # ---- 3. every number-ish string (Parse and tonumber)
